@@ -95,13 +95,13 @@ func init() {
 	register(&Rule{Name: "PANIC-REACH-REG", Floor: 1,
 		Doc: "no explicit panic() in a module function reachable from a registration root (registration reports errors, it never panics)",
 		Run: func(r *Run) { rulePanicReach(r, "reg") }})
-	register(&Rule{Name: "COMMAOK-SERVE", Floor: 3,
+	register(&Rule{Name: "COMMAOK-SERVE", Floor: 2,
 		Doc: "in request-reachable code, a pointer/interface obtained from a comma-ok map lookup or type assertion is dereferenced only where ok is known true (edge dominance) or the value was tested non-nil",
 		Run: func(r *Run) { ruleCommaOK(r, "serve") }})
 	register(&Rule{Name: "COMMAOK-REG", Floor: 2,
 		Doc: "same as COMMAOK-SERVE for registration-reachable code",
 		Run: func(r *Run) { ruleCommaOK(r, "reg") }})
-	register(&Rule{Name: "ASSERT-CHECKED", Floor: 4,
+	register(&Rule{Name: "ASSERT-CHECKED", Floor: 2,
 		Doc: "every single-result type assertion in request- or registration-reachable code is justified: pool typing, a prior comma-ok check of the same value, or a named exemption",
 		Run: ruleAssertChecked})
 	register(&Rule{Name: "SIGNCONV", Floor: 1,
@@ -113,7 +113,7 @@ func init() {
 	register(&Rule{Name: "TOKEN-KINDS", Floor: 2,
 		Doc: "every token addRule stores into a variable pattern has a kind that variable.index's switch handles (backs the exemption of its default panic)",
 		Run: ruleTokenKinds})
-	register(&Rule{Name: "NIL-MAP-WRITE", Floor: 3,
+	register(&Rule{Name: "NIL-MAP-WRITE", Floor: 2,
 		Doc: "every map-typed field of routing state that is written through (m[k]=v) is initialised by every constructor of its struct or guarded by a nil test",
 		Run: ruleNilMapWrite})
 }
